@@ -445,7 +445,7 @@ fn build_labelled<'a>(d: &'a PrettifiableDataset) -> BTreeSet<&'a SimpleTerm<'a>
                             named_graphs: [q.g()].into_iter().collect(),
                             out_degree: usize::from(i == 0),
                             predecessor: if i == 2 { Some(q.s()) } else { None },
-                            visited: false,
+                            visited: 0,
                         });
                 }
                 TermKind::Triple => {
@@ -465,7 +465,7 @@ fn build_labelled<'a>(d: &'a PrettifiableDataset) -> BTreeSet<&'a SimpleTerm<'a>
                                 named_graphs: Default::default(),
                                 out_degree: 0,
                                 predecessor: None,
-                                visited: false,
+                                visited: 0,
                             });
                     }
                 }
@@ -475,22 +475,29 @@ fn build_labelled<'a>(d: &'a PrettifiableDataset) -> BTreeSet<&'a SimpleTerm<'a>
     }
     // detect blank node cycles
     let keys: Vec<_> = profiles.keys().copied().collect();
-    for key in keys {
+    for (i, key) in keys.into_iter().enumerate() {
+        let walk = i + 1; // 0 means "not visited yet"
         let profile = profiles.get_mut(&key).unwrap();
-        if profile.bad || profile.visited {
+        if profile.bad || profile.visited != 0 {
             continue;
         }
-        profile.visited = true;
+        profile.visited = walk;
         let mut current = profile.predecessor;
         while let Some(t) = current {
             if let Some(p) = profiles.get_mut(&t) {
-                if t == key {
+                if p.bad {
+                    break;
+                } else if p.visited == walk {
+                    // we are back on a node of this very walk: it belongs to a cycle
+                    // (which does not necessarily contain `key`:
+                    // `key` may be on a tail leaving the cycle)
                     p.bad = true;
                     break;
-                } else if p.bad || p.visited {
+                } else if p.visited != 0 {
+                    // already handled by a previous walk
                     break;
                 } else {
-                    p.visited = true;
+                    p.visited = walk;
                     current = p.predecessor;
                 }
             } else {
@@ -509,7 +516,8 @@ struct BnodeProfile<'a> {
     named_graphs: BTreeSet<GraphName<&'a SimpleTerm<'a>>>,
     out_degree: usize,
     predecessor: Option<&'a SimpleTerm<'a>>,
-    visited: bool,
+    /// number of the cycle-detection walk that visited this node (0 if none yet)
+    visited: usize,
 }
 
 impl<'a> BnodeProfile<'a> {
